@@ -527,6 +527,8 @@ def hyp_violating(chk, build, hname, fn, frags, files, k, kn, dry, C, consts, sa
         order += [n for n in dict.fromkeys(fn) if n not in order]
         obs = sorted((set(before) | set(after) | set(fn)) - set(tmpnames))
         out = [[after.get(n) for n in obs], [n in after for n in tmpnames], idle, None if exc is None else err_of(exc)]
+        if inj.fired and inj.fired[0][1] == "open" and any(t in before for t in tmpnames):
+            return      # whether a stale temp file survives a failed re-open of it is left open (both repairs of the defect are fine)
         save_cases.append(([C, True, [[n, b] for n, b in sorted(before.items())], True, [[n, c] for n, c in frags], order, dry,
                             [[k, lib.ERRS[err_of(exc0).name]]], obs, tmpnames], out))
         save_desc.append({"model": "handler:" + hname, "dry_run": dry, "faults": [[k, kn]], "outside_hypotheses": True,
